@@ -32,6 +32,12 @@ CHECKS = {
         text="TLC explores every crash point of the modelled append / create / lineage steps, restart and a further append, and predicts per crash class whether GapFree and AckedOnce survive; the harness copies data/ and <ws>/.rip at every file-system hook point (log, each sidecar and index incl. between body and newline, thread index) of 16+ real operations, restarts a fresh engine on each copy in place and requires: validated replay, acknowledged appends exactly once, correct numbering and success of further appends, and every read capability answering as with caches removed.",
         note="A crash point is 'between two file-system calls of the process' (snapshot at a hook point); torn single writes / power loss are not modelled; five recorded findings (D1, D14a-d) are attributed only when the measured cache lag at the crash point matches their signature.",
         ref="4 C05"),
+    "C06": dict(
+        engine="Subscribe",
+        technique="TLA+ spec Subscribe (record/publish vs subscribe/snapshot, seq filter, shared thread channel) model-checked with TLC; every TLC-enumerated interleaving forced on the real router by the gate scheduler; oracle ExactlyOnce on the parsed SSE body",
+        text="TLC proves ExactlyOnce and Ordered for record-then-publish (also with frames of a longer foreign stream on the shared channel) and exhibits the loss for publish-then-record; all interleavings of 3 frames x (record, publish) with subscribe/snapshot are forced on real session and task streams, and interleavings with a second, longer thread on real thread streams; a further scenario delays one task frame right after numbering while the other pump runs; the SSE body must contain every frame of the stream exactly once in seq order.",
+        note="Gates at emit.recorded / emit.published / emit.numbered, cache.exit / api.return, sse.subscribed / sse.snapshotted; a schedule the code's locks forbid is unrealised (no verdict); missing = not delivered 3 s after the producer finished; lag beyond the 16 384-slot channel out of scope.",
+        ref="4 C06"),
     "C09": dict(
         engine="Threads",
         technique="TLA+ spec Threads (cut points, planner, executor, scheduler as operators over the frame sequence) model-checked with TLC; every (state, compaction request) transition replayed on the real store and compared with the prediction; gate-scheduled concurrent calls",
